@@ -410,6 +410,7 @@ def units(tier, seed):
     us.append(unit_operator_pool_bounded())
     from contracts import blocklib
     us.extend(blocklib.units('adjoint'))
+    us.extend(blocklib.resizing_units())
     us.append(unit_canary())
     return us
 
@@ -447,6 +448,12 @@ def replay_pointwise_inner(ob):
 
 
 def replay(ob):
+    if ob.get('unit', '').startswith('resizing/'):
+        from contracts import blocklib
+        try:
+            return blocklib.resizing_native_replay(ob)
+        except Exception as e:
+            return {'reproduced': False, 'detail': 'replay harness error: %r' % (e,)}
     if ob.get('unit', '').startswith('block/'):
         from contracts import blocklib
         try:
